@@ -587,33 +587,7 @@ func checkC15(p *Prog, r *Report) {
 		}
 		r.Check(ok && np, "GetConnByUfrag claims: timer stopped for an existing connection, none for a new one", p.Pos(f.Body.Pos()), "ClearAliveTimer() if found; createConn(..., false) otherwise", fmt.Sprintf("timer cleared on found=%v; created without lifetime=%v: a connection the agent is using is closed by the provisional timer", ok, np))
 	}
-	// the provisional timer is armed once, at construction; afterwards it is only ever stopped
-	{
-		n := 0
-		for _, f := range p.AllFuncs {
-			walkBody(f, func(nd ast.Node) bool {
-				switch x := nd.(type) {
-				case *ast.CallExpr:
-					sel, ok := unparen(x.Fun).(*ast.SelectorExpr)
-					if ok && p.IsField(sel.X, "tcpPacketConn.aliveTimer") {
-						n++
-						r.Check(sel.Sel.Name == "Stop", "alive timer use in "+f.Name+": "+sel.Sel.Name, p.Pos(x.Pos()), "Stop", "the provisional timer is re-armed ("+sel.Sel.Name+") after creation: a connection already claimed through GetConnByUfrag is closed by the timer underneath its owner")
-					}
-				case *ast.AssignStmt:
-					for _, l := range x.Lhs {
-						if p.IsField(l, "tcpPacketConn.aliveTimer") {
-							n++
-							r.Check(f.Name == "newTCPPacketConn", "alive timer armed in "+f.Name, p.Pos(x.Pos()), "constructor", "the provisional timer is (re)created outside the constructor")
-						}
-					}
-				}
-				return true
-			})
-		}
-		if n < 3 {
-			r.Fail("alive timer uses", "tcp_packet_conn.go", "fewer alive-timer sites than expected (rule instance lost)")
-		}
-	}
+	checkAliveTimerDiscipline(p, r)
 	if f := p.Fn("tcpPacketConn.ClearAliveTimer"); r.Anchor("tcpPacketConn.ClearAliveTimer", f != nil) {
 		r.Check(len(p.CallsTo(f, false, "time.Timer.Stop")) == 1, "ClearAliveTimer stops the timer", p.Pos(f.Body.Pos()), "aliveTimer.Stop()", "the provisional timer keeps running")
 	}
@@ -962,4 +936,34 @@ func (p *Prog) isLocalIPKey(f *Func, e ast.Expr, depth int) bool {
 		}
 	}
 	return false
+}
+
+// checkAliveTimerDiscipline: the provisional timer of a TCP packet connection is
+// armed once, by the constructor, and afterwards only ever stopped (shared by
+// C15 R15.4 and C13 R13.7).
+func checkAliveTimerDiscipline(p *Prog, r *Report) {
+	n := 0
+	for _, f := range p.AllFuncs {
+		walkBody(f, func(nd ast.Node) bool {
+			switch x := nd.(type) {
+			case *ast.CallExpr:
+				sel, ok := unparen(x.Fun).(*ast.SelectorExpr)
+				if ok && p.IsField(sel.X, "tcpPacketConn.aliveTimer") {
+					n++
+					r.Check(sel.Sel.Name == "Stop", "alive timer use in "+f.Name+": "+sel.Sel.Name, p.Pos(x.Pos()), "Stop", "the provisional timer is re-armed ("+sel.Sel.Name+") after creation: a connection already claimed through GetConnByUfrag is closed by the timer underneath its owner")
+				}
+			case *ast.AssignStmt:
+				for _, l := range x.Lhs {
+					if p.IsField(l, "tcpPacketConn.aliveTimer") {
+						n++
+						r.Check(f.Name == "newTCPPacketConn", "alive timer armed in "+f.Name, p.Pos(x.Pos()), "constructor", "the provisional timer is (re)created outside the constructor")
+					}
+				}
+			}
+			return true
+		})
+	}
+	if n < 3 {
+		r.Fail("alive timer uses", "tcp_packet_conn.go", "fewer alive-timer sites than expected (rule instance lost)")
+	}
 }
